@@ -135,6 +135,10 @@ Inductive icase :=
       (* tx = Transaction(body, ws, True, aux).to_cbor(); direct = aux.to_cbor(); id = aux.hash() *)
 | KBuild (aux_in : option bytes) (tx id_tx : bytes)
       (* aux_in = builder.auxiliary_data.to_cbor() before building; tx = build_and_sign(...).to_cbor(); id_tx = tx.id *)
+| KOutDatum (tx wd d2 : bytes)
+      (* add_output(out, datum=D, add_datum_to_witness=True) on an output object that is fresh, was used before with another
+         datum, or was decoded from CBOR; tx = build_and_sign(..).to_cbor(); wd = the datum as shipped in the witness set (the
+         harness slices it out of tx); d2 = D serialized on its own *)
 | KKey (ext : bool) (payload cb id nx_payload nx_id : bytes) (ids : list bytes)
       (* ids = the hash obtained the other ways (key derived from a signing key, key restored from its CBOR) *)
 | KNative (s : nscript) (cb id id_sh ws outb ma : bytes)
@@ -290,6 +294,21 @@ Section Judge.
                              ++ (match aa with Some a => [m_pre c (OAux a)] | None => [] end) |}
             | _, _ => bad
             end
+        | _ => bad
+        end
+    | KOutDatum tx wd d2 =>
+        match array_items tx with
+        | Some ((CM kvs, b_sl) :: _) =>
+            let outs := match find_key 1 kvs with Some (CA l) => l | _ => [] end in
+            let dh := fun o => match o with
+                               | CM okvs => match find_key 2 okvs with Some (CA [CU 0; CB h]) => Some h | _ => None end
+                               | CA [_; _; CB h] => Some h
+                               | _ => None
+                               end in
+            (* some output of the body is locked by the BLAKE2b-256 of exactly the datum bytes shipped *)
+            {| v_oracle := existsb (fun o => opt_bytes_eqb (dh o) (Some (H 32%nat wd))) outs;
+               v_corr := bytes_eqb wd d2;
+               v_need := [(32%nat, wd)] |}
         | _ => bad
         end
     | KKey ext payload cb id nx_payload nx_id ids =>
